@@ -165,6 +165,25 @@ class SimplePlan(Plan):
         return progs, False, f"{n} programs from gen.{self.gen_name}: {self.rule}"
 
 
+class NamesPlan(Plan):
+    nontrivial_rule = "every generated name counts (all are distinct requests)"
+    rule = ("real name requests: sequential (direct, via leaf construction, via materialized()) on three engines; "
+            "8-16 real threads with sys.setswitchinterval(1e-6); and forced races in which uuid4 is wrapped in a "
+            "2-party barrier so both threads have read the counter before either increments it; every name is "
+            "parsed and re-formatted by the Lean model")
+    trusted_base = COMMON_TB + ["uuid.uuid4 returns pairwise distinct values (FreshUuids; collision probability "
+                                "2^-122 per pair)", "granularity of CPython thread switches"]
+    assumptions = ["FreshUuids", "name-request steps are atomic at the granularity modelled in Model/Names.lean"]
+
+    def custom(self, tier, seed):
+        import names_check
+
+        return names_check.run_names(tier if tier != "search" else "thorough", seed)
+
+    def programs(self, tier, seed):
+        return [], False, self.rule
+
+
 PLANS: dict[str, Plan] = {
     "C01": IterationPlan(eager=True),
     "C04": CommutePlan(),
@@ -180,6 +199,12 @@ PLANS: dict[str, Plan] = {
     "C07": MultiPlan(quick=600),
     "C14": MultiPlan(quick=600),
     "C15": MultiPlan(quick=600),
+    "C09": SimplePlan("prog_values", 500, 12000,
+                      "the same operation sequence built twice from the same leaves (hash/equality of the twins), "
+                      "interleaved with to_executable/execute/process/diagnostics over the shared pool; after EVERY "
+                      "step a fingerprint (structure, columns, bounds, str, hash, leaf payload content) of EVERY "
+                      "pool relation is compared with the previous one",
+                      "a snapshot taken after a command, or a hash comparison of independently built twins"),
     "C10": SimplePlan("prog_history", 800, 20000,
                       "histories of attach/execute/process over trees sharing materialization nodes",
                       "the relation touched by the event contains a materialization"),
@@ -191,6 +216,7 @@ PLANS: dict[str, Plan] = {
                       "raw SQL trees assembled bottom-up with the dataclass constructors (no engine), conformed, "
                       "compiled and run; API-built trees conformed again; every Select of every tree walked",
                       "a raw (unconformed) tree was conformed"),
+    "C19": NamesPlan(),
     "C20": SimplePlan("prog_illformed", 1000, 25000,
                       "a well-typed multi-engine program plus ONE injected ill-formed request (missing column, "
                       "existing tag, chain column mismatch, engine mismatch, unsupported expression, bad slice) "
